@@ -997,6 +997,47 @@ DETAIL["c05_g_template_api"] = lambda k, before, after, i, j: {
     "Template() call after": None if after < 0 else G_OTHERS[after], "data text": d_text(i, j), "page output": g_case(k, before, after, i, j)}
 CONDITIONS.append({"fn": "c05_g_template_api", "quick": 60, "thorough": 120, "sel_only": True})
 
+# --------------------------------------------------------------------------
+# H: decoding filters applied to a value that is typed safe but carries render data (captured text, text with a literal
+# appended, joined with a literal separator, assigned): what comes out of the decoder is data again and must be escaped
+# --------------------------------------------------------------------------
+H_ENC = ["PA==", "Ig==", "Jw==", "Jg==", "PGI+", "PGEgYj0nYyc+", "%3C", "%26%22", "%27x%3E", "+%3Cb%3E", "a", ""]
+H_DEC = ["base64_decode", "base64_url_safe_decode", "url_decode"]
+H_FORMS = ["{%% capture c %%}{{ s }}{%% endcapture %%}{{ c | %s }}", "{{ s | append: '' | %s }}", "{{ xs | join: '' | %s }}", "{%% assign v = s | strip_newlines %%}{{ v | %s }}",
+           "{{ s | prepend: '' | %s }}{{ s | %s }}", "{%% capture c %%}{{ s | append: '' }}{%% endcapture %%}{%% assign w = c | %s %%}{{ w }}{{ w | upcase }}",
+           "{{ s | escape | %s }}", "{{ s | url_encode | %s }}", "{{ s | base64_encode | %s }}", "{{ s | %s | %s }}"]
+_H_T = {}
+
+
+def h_sweep(di, fi):
+    key = (di, fi)
+    if key not in _H_T:
+        _H_T[key] = ENV_ON.from_string(H_FORMS[fi].replace("%s", H_DEC[di]).replace("%%", "%"))
+    bad = []
+    for e in H_ENC:
+        try:
+            out = _H_T[key].render(s=e, xs=[e])
+        except Exception:
+            continue
+        if not html_safe(out):
+            bad.append((e, out))
+    return bad
+
+
+def c05_h_decoders(di: int, fi: int) -> bool:
+    """
+    pre: 0 <= di <= 2 and 0 <= fi <= 9
+    post: _
+    """
+    if excluded("c05_h_decoders", locals()):
+        return True
+    di, fi = cint(di, 0, 2), cint(fi, 0, 9)
+    return finish(untraced(lambda: not h_sweep(di, fi)))
+
+
+DETAIL["c05_h_decoders"] = lambda di, fi: {"template": H_FORMS[fi].replace("%s", H_DEC[di]).replace("%%", "%"), "encoded data and output": h_sweep(di, fi)[:3]}
+CONDITIONS.append({"fn": "c05_h_decoders", "quick": 30, "thorough": 60, "sel_only": True})
+
 ASSUMPTIONS = [
     "stub: markupsafe._escape_inner is bound to markupsafe._native._escape_inner (the documented pure-Python fallback) instead of the C speed-up, which would concretise symbolic strings before escaping; selftest compares both kernels",
     "template sources are concrete skeletons generated from the tables in harness/c05.py (constructs x filter chains); their literal text and string literals contain no HTML-special characters; render data s, t (strings), n (int), xs = [s, t] are symbolic",
